@@ -19,7 +19,9 @@ RULE = ('send: 1-5 method calls through DBusClientConnection.callRemote on a UNI
         'each no later than the read that completes its message, arbitrarily early otherwise), with byte-level read '
         'splitting; oracle: every delivered message resolves its h arguments to the tokens attached at those '
         'positions and no token is left over. recv_enum: all placements for <=3 messages x <=2 descriptors each '
-        'with message-granular reads (exhaustive). Non-trivial = >=2 descriptor-carrying messages with a descriptor '
+        'with message-granular reads (exhaustive). recv_burst: 6/9/14 descriptor-carrying messages (up to 42 '
+        'descriptors) whose descriptors are all, or all but the last few, queued before the first byte, under four '
+        'chunkings. Non-trivial = >=2 descriptor-carrying messages with a descriptor '
         'of a later message queued before an earlier message completes; distinct = distinct case JSON.')
 ASSUMPTIONS = ['the transport double stands in for the kernel: descriptors are delivered through '
                'fileDescriptorReceived in sending order and never after the last byte of their message',
@@ -311,6 +313,9 @@ def classify_recv(case):
         labels.append('later_fd_queued_early')
     if len(case['cuts']) > len(stream):
         labels.append('split_reads')
+    if placement and max(sum(1 for _, r in placement if r <= i) - sum(len(stream[mj][1]) for mj in carriers if comp[mj] < i)
+                         for i in range(len(bounds))) > 16:
+        labels.append('>16 descriptors queued at once')
     return early, labels
 
 
@@ -388,11 +393,39 @@ def enum_recv(tier):
                 yield case
 
 
+def enum_recv_burst(tier):
+    """Long bursts: 6-14 descriptor-carrying messages whose descriptors all arrive before the first byte (what a
+    receiver sees when a sender writes a batch at once), or in two batches, read in a few different chunkings."""
+    for n in (6, 9, 14):
+        for pattern in ((3,), (1, 2, 3), (3, 0, 2)):
+            msgs = []
+            base = 700
+            for mi in range(n):
+                c = pattern[mi % len(pattern)]
+                sig = 'h' * c + 'i'
+                trees = [base + j for j in range(c)] + [mi]
+                base += c
+                t = [1, 2, 4][mi % 3]
+                fl = {1: {'path': '/o', 'member': 'Take'}, 2: {'reply_serial': 5},
+                      4: {'path': '/o', 'member': 'Gave', 'interface': 'a.b'}}[t]
+                msgs.append({'type': t, 'fields': fl, 'sig': sig, 'trees': trees, 'pres': [], 'no_reply': False,
+                             'no_auto': False, 'serial': mi + 1, 'nh': c, 'little': mi % 2 == 0})
+            for fdpos in ([0], [0] * (base - 700 - 4) + [50]):
+                case = {'msgs': msgs, 'cuts': [], 'fdpos': fdpos}
+                stream = _recv_stream(case)
+                ends = list(itertools.accumulate(len(r) for r, _ in stream))
+                for cuts in (ends[:-1], [], [e - 3 for e in ends], list(range(7, ends[-1], 61))):
+                    yield dict(case, cuts=sorted(set(c for c in cuts if 0 < c < ends[-1])))
+
+
 SUBCHECKS = [
     Subcheck('send', run_send, classify_send, strategy=lambda tier: send_case(tier),
              n={'quick': 150, 'thorough': 1500}),
     Subcheck('recv', run_recv, classify_recv, strategy=lambda tier: recv_case(tier),
              n={'quick': 400, 'thorough': 4000}),
+    Subcheck('recv_burst', run_recv, classify_recv, enumerate=enum_recv_burst, shards={'quick': 4, 'thorough': 4},
+             exhaustive_note='bursts of 6/9/14 descriptor-carrying messages (up to 42 descriptors) with all descriptors '
+                             'queued before the first byte, or all but the last few, under four chunkings'),
     Subcheck('recv_enum', run_recv, classify_recv, enumerate=enum_recv, shards={'quick': 2, 'thorough': 2},
              exhaustive_note='<=3 descriptor-carrying calls x 0..2 descriptors each, one read per message: every '
                              'stream-consistent placement of descriptor arrivals'),
